@@ -176,10 +176,7 @@ pub fn run(i: &Input) -> Result<(), String> {
     w.write_number::<u8, U8C>(0xA5).unwrap();
     let mut rd = w.as_reader();
     let _ = rd.read_bit_field_entry(true);
-    // a reader that knows fewer additions cannot skip unknown PRESENT additions (KF-C05-unknown-additions): not searched
-    if n_r < n && (n_r..n).any(present) {
-        return Ok(());
-    }
+    // a reader that knows fewer additions skips the unknown present ones by their open-type length (X.691 19.9)
     let back = dispatch!(root_opts(kr, e), n_r, e, do_read, &mut rd, kr).map_err(|e| format!("read failed: {e:?}"))?;
     for j in 0..n_r {
         let expect = if j < n {
